@@ -578,6 +578,11 @@ theorem exited_is_final {maxTTL t0 period : Int} {s s' : CState} {l : Label}
     split at hs
     · rename_i hcond; rw [hb] at hcond; exact absurd hcond.1 (by decide)
     · cases hs
+  case bgStart =>
+    simp only [cstep] at hs
+    split at hs
+    · rename_i hcond; rw [hb] at hcond; cases hcond
+    · cases hs
   all_goals
     simp only [cstep] at hs
     repeat' split at hs
@@ -591,7 +596,8 @@ reachable afterwards its delete step is disabled (and so are its visits and its 
 theorem no_periodic_delete_after_stop_returned {maxTTL t0 period : Int} {s s1 : CState}
     (hr : Reach maxTTL t0 period s) (caller : Nat) (hs : cstep s (.stopReturn caller) = some s1)
     (ls : List Label) (s2 : CState) (hrun : crun s1 ls = some s2) :
-    s2.bg = .exited ∧ (∀ k st, cstep s2 (.cDelOne 0 k st) = none) ∧ cstep s2 .bgTake = none := by
+    s2.bg = .exited ∧ (∀ k st, cstep s2 (.cDelOne 0 k st) = none) ∧ cstep s2 .bgTake = none ∧
+      cstep s2 .bgStart = none := by
   have hb1 : s1.bg = .exited := exited_is_final hr hs (stop_waits_cleaner hr caller hs).1
   have hr1 : Reach maxTTL t0 period s1 := Reach.step _ hr hs
   have key : ∀ (ls : List Label) (a b : CState), Reach maxTTL t0 period a → a.bg = .exited →
@@ -618,9 +624,36 @@ theorem no_periodic_delete_after_stop_returned {maxTTL t0 period : Int} {s s1 : 
       obtain ⟨hc, hid⟩ := findCl_some hf
       have := hI.bgCl c hc hid
       rw [hb2] at this; cases this
-  · simp only [cstep]
-    rw [if_neg]
-    intro h; rw [hb2] at h; exact absurd h.1 (by decide)
+  · refine ⟨?_, ?_⟩
+    · simp only [cstep]
+      rw [if_neg]
+      intro h; rw [hb2] at h; exact absurd h.1 (by decide)
+    · simp only [cstep]
+      rw [if_neg]
+      intro h; rw [hb2] at h; cases h
+
+/-- **stop_waits_for_unstarted_cleaner.** `NewCache` creates `runningCh` before the `go` statement and
+only the goroutine itself closes it, so a `Stop` issued before the periodic goroutine has ever been
+scheduled (`spawned`) cannot return: it returns only after the goroutine has started AND exited.
+(A completion signal the goroutine registers on itself — e.g. `wg.Add(1)` inside the goroutine —
+would break exactly this.) -/
+theorem stop_waits_for_unstarted_cleaner {maxTTL t0 period : Int} {s : CState}
+    (hr : Reach maxTTL t0 period s) (hsp : s.bg = .spawned) (caller : Nat) :
+    cstep s (.stopReturn caller) = none := by
+  cases h : cstep s (.stopReturn caller) with
+  | none => rfl
+  | some s' =>
+    have := (stop_waits_cleaner hr caller h).1
+    rw [hsp] at this; cases this
+
+/-- `NewCache(); Stop()` back to back, as a run: `Stop` cannot return while the goroutine is unstarted
+or idle; after it returned no ticker exists for the clock to fire and nothing can restart the cleaner. -/
+example :
+    (crun (CState.init 0 0 1000000000) [.stopCall 1]).map (fun s => (cstep s (.stopReturn 1)).isSome) = some false ∧
+    (crun (CState.init 0 0 1000000000) [.stopCall 1, .bgStart]).map (fun s => (cstep s (.stopReturn 1)).isSome) = some false ∧
+    (crun (CState.init 0 0 1000000000) [.stopCall 1, .bgStart, .bgExit, .stopReturn 1, .advance 5000000000]).map
+      (fun s => (s.tickPending, (cstep s .bgTake).isSome, (cstep s .bgStart).isSome)) = some (false, false, false) := by
+  decide
 
 /-- Non-vacuity (and the documented cleanup/refresh race as a run of the LTS): `Set a` (ttl 1 s),
 2 s pass, a cleaner snapshots `a` as expired, `a` is refreshed (ttl 50 s), a `Get` hits the new
@@ -639,10 +672,10 @@ example :
 inside Cleanup: NEITHER can return (`stopReturn 1`, `stopReturn 2` disabled) until the cleaner has
 finished and exited; then both return. -/
 example :
-    (crun (CState.init 0 0 1000000000) [.advance 1000000000, .bgTake, .cNow 0, .cSeal 0, .stopCall 1, .stopCall 2]).map
+    (crun (CState.init 0 0 1000000000) [.bgStart, .advance 1000000000, .bgTake, .cNow 0, .cSeal 0, .stopCall 1, .stopCall 2]).map
       (fun s => ((cstep s (.stopReturn 1)).isSome, (cstep s (.stopReturn 2)).isSome)) = some (false, false) ∧
     (crun (CState.init 0 0 1000000000)
-      [.advance 1000000000, .bgTake, .cNow 0, .cSeal 0, .stopCall 1, .stopCall 2, .cEnd 0, .bgExit,
+      [.bgStart, .advance 1000000000, .bgTake, .cNow 0, .cSeal 0, .stopCall 1, .stopCall 2, .cEnd 0, .bgExit,
        .stopReturn 2, .stopReturn 1, .stopCall 3, .stopReturn 3]).isSome = true := by decide
 
 /-- Trace-level reading of the stored view: for every run `ls` of the LTS from the initial state,
@@ -762,11 +795,15 @@ theorem accepted_stop_return_means_exited {maxTTL t0 period : Int} {s : CState}
     (h : (respond s (.stopcall id)).resp = .returned) :
     (respond s (.stopcall id)).state.bg = .exited := by
   simp only [respond] at h ⊢
-  rcases firstRun_spec s [([Label.stopCall id, .bgExit, .stopReturn id], Resp.returned),
+  rcases firstRun_spec s [([Label.stopCall id, .bgStart, .bgExit, .stopReturn id], Resp.returned),
+      ([Label.stopCall id, .bgExit, .stopReturn id], Resp.returned),
       ([Label.stopCall id, .stopReturn id], Resp.returned), ([Label.stopCall id], Resp.blocked)] with h1 | ⟨a, ha, _, h2, h3⟩
   · rw [h1.2] at h; cases h
   · simp only [List.mem_cons, List.not_mem_nil, or_false] at ha
-    rcases ha with rfl | rfl | rfl
+    rcases ha with rfl | rfl | rfl | rfl
+    · obtain ⟨s2, hs2, hst⟩ := crun_snoc (pre := [Label.stopCall id, .bgStart, .bgExit]) (l := .stopReturn id) h3
+      have hr2 := reach_of_crun _ _ _ hr hs2
+      exact exited_is_final hr2 hst (stop_waits_cleaner hr2 id hst).1
     · obtain ⟨s2, hs2, hst⟩ := crun_snoc (pre := [Label.stopCall id, .bgExit]) (l := .stopReturn id) h3
       have hr2 := reach_of_crun _ _ _ hr hs2
       exact exited_is_final hr2 hst (stop_waits_cleaner hr2 id hst).1
@@ -779,10 +816,10 @@ theorem accepted_stop_return_means_exited {maxTTL t0 period : Int} {s : CState}
 the get/refresh race through a parked `Get`. -/
 example :
     (drive (CState.init 0 0 1000000000)
-      [.set "a" 1 1, .adv 2000000000, .bgsnap, .stopcall 1, .stopcall 2, .set "a" 2 9, .get "a",
+      [.bgstart, .set "a" 1 1, .adv 2000000000, .bgsnap, .stopcall 1, .stopcall 2, .set "a" 2 9, .get "a",
        .bgfinish, .stopwait 2, .stopwait 1, .get "a",
        .set "b" 1 1, .gbegin 5 "b", .set "b" 2 50, .adv 1000000000, .gend 5 "b", .get "b"]).2.1
-    = [.ok, .ticked .sent, .snap ["a"], .blocked, .blocked, .ok, .hit 2, .ok, .ok, .ok, .miss,
+    = [.ok, .ok, .ticked .sent, .snap ["a"], .blocked, .blocked, .ok, .hit 2, .ok, .ok, .ok, .miss,
        .ok, .ok, .ok, .ticked .none, .miss, .hit 2] := by
   decide
 
@@ -801,6 +838,9 @@ the structural facts the LTS encodes by construction. -/
   collecting every key, hook, bulk `Del` (the cleaner phases `cNow`, `cVisit`*, `cSeal`, `cDelOne`*);
 * `Stop` = `if CAS { close(stopCh) }` then an UNCONDITIONAL `<-runningCh`: every caller waits
   (the guard of `stopReturn` for every caller id);
+* `runningCh` is made BEFORE the `go` statement (synchronously inside `NewCache`) and closed only by the
+  goroutine's own deferred `close`: `Stop` waits even for a goroutine that has not run yet (pc `spawned`,
+  `stop_waits_for_unstarted_cleaner`);
 * the periodic goroutine defers `close(runningCh)` first and `ticker.Stop()` second (so the ticker
   is stopped before `runningCh` closes: `bgExit` sets both) and selects on stopCh/return and tick/Cleanup;
 * `NewCache` replaces an interval `≤ 0` by 150 s; the two hook sites are where `cSeal` sits. -/
@@ -815,10 +855,11 @@ theorem source_shape_as_modelled :
     Src.resetSteps = ["forEachCollectAll", "hook", "bulkDel"] ∧
     Src.stopSteps = ["ifCAS:closeStopCh", "waitRunningCh"] ∧
     Src.stopEveryCallerWaits = true ∧
+    Src.bgSetup = ["makeRunningCh", "go"] ∧
     Src.bgDefers = ["closeRunningCh", "tickerStop"] ∧
     Src.bgSelect = ["stopCh:return", "tick:Cleanup"] ∧
     Src.hookSites = [("Cleanup", "ttlcache.cleanup.afterSnapshot"), ("Reset", "ttlcache.reset.afterSnapshot")] := by
   refine ⟨fun _ _ => Iff.rfl, fun _ _ => Iff.rfl, fun _ => Iff.rfl, fun _ _ => rfl, rfl, fun _ => rfl,
-    by decide, by decide, by decide, rfl, by decide, by decide, by decide⟩
+    by decide, by decide, by decide, rfl, by decide, by decide, by decide, by decide⟩
 
 end Kit.TTLCache
